@@ -169,6 +169,19 @@ static std::string printable(const std::string& s) { std::string o; for (unsigne
 static std::vector<DeviceIdentifier> ENUM;
 static unsigned long long n_strong, n_weak, n_select;
 
+static unsigned long long n_malformed, n_history_sequences;
+static std::string g_history; // selections made just before on the same manager (history sequences): part of the violation's spec
+static bool definitely_malformed(const std::string& p)
+{
+    if (p.find('\\') != std::string::npos) return false;
+    int depth = 0;
+    for (size_t i = 0; i < p.size(); ++i) {
+        if (p[i] == '[') { size_t j = p.find(']', i + 2 <= p.size() ? i + 2 : p.size()); if (j == std::string::npos) return true; i = j; continue; } // "[]" + no later ']' : unterminated as well
+        if (p[i] == '(') ++depth;
+        else if (p[i] == ')') { if (depth == 0) return false; --depth; } // a stray ')' : leave it to the weak oracle
+    }
+    return depth > 0;
+}
 static void check_select(const DeviceManager* dm, int kind, const std::string& pat)
 {
     ++n_select;
@@ -176,7 +189,7 @@ static void check_select(const DeviceManager* dm, int kind, const std::string& p
     DeviceStatusCode rc;
     try { rc = device_manager_select(dm, (DeviceKind)kind, pat.data(), pat.size(), &out); }
     catch (...) { viol("exception-escaped", "device_manager_select let an exception escape", "kind=" + std::to_string(kind) + " pattern=" + hex(pat)); return; }
-    std::string spec = "kind=" + std::to_string(kind) + " pattern=" + hex(pat) + " (" + printable(pat) + ")";
+    std::string spec = "kind=" + std::to_string(kind) + " pattern=" + hex(pat) + " (" + printable(pat) + ")" + (g_history.empty() ? "" : " after selecting " + g_history + " on the same manager");
     if (rc != Device_Ok && rc != Device_Err) { viol("bad-status", "device_manager_select returned a status that is neither Ok nor Err", spec); return; }
     // weak oracle (always): an Ok result is an enumerated identifier of the requested kind
     int got = -1;
@@ -193,7 +206,12 @@ static void check_select(const DeviceManager* dm, int kind, const std::string& p
     if (eff.empty()) { for (size_t i = 0; i < ENUM.size(); ++i) if ((int)ENUM[i].kind == kind) { want = (int)i; break; } }
     else {
         NFA n; int start = 0;
-        if (!compile(eff, n, start)) { ++n_weak; return; }
+        if (!compile(eff, n, start)) {
+            // outside the reference matcher's subset, or malformed.  Malformed beyond doubt (no escapes, and an opening parenthesis that is
+            // never closed or a bracket expression that never ends): the answer is an error whatever was asked before
+            if (definitely_malformed(eff)) { ++n_malformed; if (rc == Device_Ok) viol("malformed-pattern-accepted", std::string("select returned \"") + out.name + "\" for a pattern that is not a regular expression", spec); return; }
+            ++n_weak; return;
+        }
         for (size_t i = 0; i < ENUM.size(); ++i) if ((int)ENUM[i].kind == kind && full_match(n, start, ENUM[i].name)) { want = (int)i; break; }
     }
     ++n_strong;
@@ -392,12 +410,26 @@ int main(int argc, char** argv)
     { std::string a = "[", b = "(", c = "*"; for (int i = 0; i < 100; ++i) a += "%s"; for (int i = 0; i < 100; ++i) b += "%n"; for (int i = 0; i < 60; ++i) c += "%s%n"; pats.push_back(a); pats.push_back(b); pats.push_back(c); }
     for (int kind : { (int)DeviceKind_Camera, (int)DeviceKind_Storage })
         for (size_t i = 0; i < pats.size(); ++i) if ((int)(i % (size_t)nshard) == shard) check_select(&dm, kind, pats[i]);
+    // history independence: every sequence of three selections (repetition included) over a small menu of well-formed, non-matching and
+    // malformed patterns, on this one manager; each answer is judged as above - what was asked before does not matter
+    if (shard == 0) {
+        std::vector<std::string> menu = { "", ".*", "zzz", "[", "(", "raw(", ".*[" };
+        for (auto& id : ENUM) { std::string nm = id.name; if (menu.size() < 13 && nm.find_first_of(".*+?|()[]\\{}^$") == std::string::npos) { menu.push_back(nm); menu.push_back(nm + "("); } }
+        for (size_t a = 0; a < menu.size(); ++a) for (size_t b = 0; b < menu.size(); ++b) for (size_t c = 0; c < menu.size(); ++c)
+            for (int kind : { (int)DeviceKind_Camera, (int)DeviceKind_Storage }) {
+                ++n_history_sequences;
+                g_history.clear(); check_select(&dm, kind, menu[a]);
+                g_history = "\"" + printable(menu[a]) + "\""; check_select(&dm, kind, menu[b]);
+                g_history += ", \"" + printable(menu[b]) + "\""; check_select(&dm, kind, menu[c]);
+                g_history.clear();
+            }
+    }
     try { device_manager_destroy(&dm); } catch (...) { viol("exception-escaped", "device_manager_destroy let an exception escape", "destroy"); }
     double wall = std::chrono::duration<double>(std::chrono::steady_clock::now() - t0).count();
     FILE* f = out.empty() ? stdout : fopen(out.c_str(), "w");
     auto esc = [](const std::string& s) { std::string o; for (char c : s) { if (c == '"' || c == '\\') o += '\\'; o += c; } return o; };
-    fprintf(f, "{\"manager_life_cycle_sequences\":%llu,\"maxlen\":%d,\"devices_enumerated\":%zu,\"patterns\":%zu,\"select_calls\":%llu,\"judged_by_reference_matcher\":%llu,\"weak_oracle_only\":%llu,\"get_calls\":%llu,\"devices_opened\":%llu,\"exhaustive\":true,\"wall_s\":%.3f,\"samples\":[",
-            g_lifecycles, maxlen, ENUM.size(), pats.size(), n_select, n_strong, n_weak, n_get, n_open, wall);
+    fprintf(f, "{\"select_history_sequences\":%llu,\"malformed_beyond_doubt\":%llu,\"manager_life_cycle_sequences\":%llu,\"maxlen\":%d,\"devices_enumerated\":%zu,\"patterns\":%zu,\"select_calls\":%llu,\"judged_by_reference_matcher\":%llu,\"weak_oracle_only\":%llu,\"get_calls\":%llu,\"devices_opened\":%llu,\"exhaustive\":true,\"wall_s\":%.3f,\"samples\":[",
+            n_history_sequences, n_malformed, g_lifecycles, maxlen, ENUM.size(), pats.size(), n_select, n_strong, n_weak, n_get, n_open, wall);
     for (size_t i = 0; i < ENUM.size() && i < 12; ++i) fprintf(f, "%s\"enumerated: kind %d %s\"", i ? "," : "", (int)ENUM[i].kind, esc(ENUM[i].name).c_str());
     fprintf(f, "],\"violations\":[");
     bool first = true;
